@@ -226,6 +226,7 @@ static void solver_case(CaseCtx& c)
         SolverConfig a = cfg;
         a.threads = T;
         auto g = a.make_api();
+        omp_set_num_threads(T); // the pointer-route constructor leaves the runtime at the parser default of 1 thread
         g->setup();
         g->solve();
         Vector<double> u = g->solution();
